@@ -5,6 +5,8 @@ def run_check(tier, seed, replay=None):
     q = tier == "quick"
     return builder_check("C06", tier, seed, replay, B_CONTENT | B_PANIC,
         suites=[("methods", "methods", [], False),
+                # ids reserved from the builder, a failing call, then the same ids used for real: "a bound above every id used"
+                ("ids", "ids", [], False),
                 ("random", "random", ["--n", "200" if q else "6000", "--len", "30" if q else "60"], False)],
         required=["Ok"],
         assumptions=BASE_ASSUMPTIONS + ["every public Builder method of the CURRENT tree gets one generated call (harness/gen_builder.py parses the signatures; a shape it cannot handle is a tool error); argument values are pairwise distinct so that any swap is visible",
